@@ -273,9 +273,56 @@ def run(ctx):
                                 tie("rejection_accept", okacc, str(case))
                             except Exception as e:   # IR missing (translator failed) or evaluator error
                                 tie("ir-evaluation", False, repr(e))
+    big_n_default_jax(ctx)
     for name, (ok, detail) in sorted(tie_ok.items()):
         ctx.oblig(f"correspondence:IR-vs-impl:{name}", ok, detail)
     if not tie_ok:
         ctx.oblig("correspondence:IR-vs-impl", False, "no IR available (translator failed)")
     ctx.traces = tie_cases
     ctx.extra["tie_cases"] = tie_cases
+
+
+def big_n_default_jax(ctx):
+    """N = 50000 under JAX in its DEFAULT configuration (64-bit off; the rest of this harness enables it): run in a fresh interpreter."""
+    import subprocess
+    import sys
+    import textwrap
+    code = textwrap.dedent('''
+        import json, sys
+        import numpy as np
+        out = {}
+        try:
+            import jax, jax.numpy as jnp
+            from aspire.samples import Samples
+            rng = np.random.default_rng(5)
+            n = 50000
+            ll, lp, lq = rng.normal(0, 3, n), rng.normal(0, 1, n), rng.normal(0, 2, n)
+            ref = Samples(np.arange(n, dtype=float).reshape(n, 1), log_likelihood=ll, log_prior=lp, log_q=lq)
+            out["x64"] = bool(jax.config.jax_enable_x64)
+            s = Samples(jnp.arange(n, dtype=jnp.float32).reshape(n, 1), log_likelihood=jnp.asarray(ll, dtype=jnp.float32), log_prior=jnp.asarray(lp, dtype=jnp.float32),
+                        log_q=jnp.asarray(lq, dtype=jnp.float32), xp=jnp)
+            out["jax"] = [float(s.log_evidence), float(s.effective_sample_size), float(s.log_evidence_error)]
+            out["numpy"] = [float(ref.log_evidence), float(ref.effective_sample_size), float(ref.log_evidence_error)]
+        except Exception as e:
+            out["error"] = repr(e)[:300]
+        print("RESULT " + json.dumps(out))
+    ''')
+    import os
+    env = dict(os.environ)
+    env.pop("JAX_ENABLE_X64", None)
+    env["JAX_PLATFORMS"] = "cpu"
+    p = subprocess.run([sys.executable, "-c", code], capture_output=True, text=True, timeout=300, env=env)
+    line = [l for l in p.stdout.split("\n") if l.startswith("RESULT ")]
+    case = {"N": 50000, "ns": "jax", "dtype": "float32", "jax_enable_x64": False}
+    ctx.count(("big-n-default-jax",), True, kind="large-N/jax-default-config")
+    if not line:
+        ctx.extra["big_n_default_jax"] = {"error": (p.stderr or p.stdout)[-300:]}
+        return
+    res = json.loads(line[0][7:])
+    ctx.extra["big_n_default_jax"] = res
+    if "error" in res:
+        ctx.violation("large-N:jax-default:raises", f"a weighted sample set of N=50000 under JAX (default configuration, 64-bit off) cannot be built: {res['error']}", case)
+        return
+    for name, a, b, tol in zip(("log_evidence", "ess", "relative error"), res["jax"], res["numpy"], (1e-3, 1e-2, 5e-2)):
+        if not (abs(a - b) <= tol * (1 + abs(b))):
+            ctx.violation(f"large-N:jax-default:{name}", f"{name} of N=50000 under JAX/float32 is {a}, NumPy/float64 gives {b}", case)
